@@ -108,7 +108,7 @@ struct RunObs {
 }
 
 /// Execute a history of run() calls on one chain, recording the hook trace (no injection).
-fn observe<T, B>(target: AnyGT<T>, start: &[f64], delta: f64, seed: u64, runs: &[(usize, usize)], f32s: bool) -> Result<Vec<RunObs>, String>
+fn observe<T, B>(target: AnyGT<T>, start: &[f64], delta: f64, seed: u64, runs: &[(usize, usize)], f32s: bool, rt_for_verifier: Option<&RefT>, max_leaves: usize) -> Result<Vec<RunObs>, String>
 where
     T: Float + burn::tensor::ElementConversion + burn::tensor::Element + rand_distr::uniform::SampleUniform + num_traits::FromPrimitive + std::fmt::Debug,
     B: AutodiffBackend,
@@ -121,10 +121,26 @@ where
     let mut out = vec![];
     for &(c, d) in runs {
         let pos_before = v(&chain.position);
-        let (r, rec) = record_with(Script { prefix: vec![], momenta: vec![], f32_scalar: f32s, inject: false, keep: Some(&["nuts.init_momentum", "nuts.init", "nuts.end", "nuts.adapt"]), max_leaves: 1 << 13 }, || {
+        // short runs are recorded completely so that every transition can also be replayed by the Algorithm-6
+        // reference (ties the acceptance statistic that drives the adaptation to the true energy changes)
+        let full = c + d <= 20;
+        let keep: Option<&'static [&'static str]> = if full { None } else { Some(&["nuts.init_momentum", "nuts.init", "nuts.end", "nuts.adapt"]) };
+        let (r, rec) = record_with(Script { prefix: vec![], momenta: vec![], f32_scalar: f32s, inject: false, keep, max_leaves }, || {
             chain.run(c, d);
         });
         r?;
+        if full {
+            if let Some(rt) = rt_for_verifier {
+                for (i, (l, _)) in rec.events.iter().enumerate() {
+                    if l == "nuts.momentum" {
+                        let mut ver = Verifier::new(rt, f32s, f32s, &rec.events, i);
+                        if let Err(f) = ver.transition() {
+                            return Err(format!("ALG6 {}: {}", f.key, f.what));
+                        }
+                    }
+                }
+            }
+        }
         let mut ro = RunObs { n_collect: c, n_discard: d, init: vec![], init_momentum: vec![], start_pos: pos_before, trans: vec![] };
         let mut pending: Option<(f64, f64, f64)> = None;
         for (l, e) in rec.events.iter() {
@@ -310,7 +326,7 @@ where
                         continue;
                     }
                     // quick tier: the 600-transition warm-ups only where an adaptation runaway would show (NaN-region targets)
-                    if !ctx.tier.thorough() && ti < 3 && h.iter().any(|r| r.1 >= 600) {
+                    if !ctx.tier.thorough() && h.iter().any(|r| r.1 >= 600) && !(ti == 5 && f32s && delta < 0.7 && h.len() == 1) {
                         continue;
                     }
                     cfgs.push(Cfg { target: ti, delta, seed, runs: h.clone() });
@@ -324,11 +340,12 @@ where
         let case = json!({"backend": name, "target": tname, "delta": c.delta, "seed": c.seed, "runs": c.runs});
         ctx.evals(1);
         ctx.state(hash_str(&case.to_string()));
-        match observe::<T, B>(target.clone(), start, c.delta, c.seed, &c.runs, f32s) {
+        match observe::<T, B>(target.clone(), start, c.delta, c.seed, &c.runs, f32s, Some(&rt), ctx.tier.pick(1 << 11, 1 << 13)) {
             Err(m) if m.contains("runaway tree") => {
-                ctx.outcome("histories skipped (a transition needed more than 2^13 leapfrog steps)", 1);
+                ctx.outcome("histories cut off (a transition needed more leapfrog steps than the harness allows: 2^11 quick / 2^13 thorough)", 1);
                 ctx.cap(&format!("history {:?} on {tname} (delta {}, seed {}): {m}", c.runs, c.delta, c.seed));
             }
+            Err(m) if m.starts_with("ALG6 ") => ctx.violation(Violation::new("C04:acceptance-statistic-inputs", format!("a transition of history {:?} is not the Algorithm-6 transition its acceptance statistic is supposed to summarise: {}", c.runs, &m[5..]), case)),
             Err(m) => ctx.violation(Violation::new("C04:panic", format!("NUTSChain::run panicked in history {:?}: {m}", c.runs), case)),
             Ok(obs) => {
                 check_history(ctx, &rt, &obs, c.delta, f32s, &case, tname, worst);
@@ -346,8 +363,8 @@ where
 fn acceptance_grid(ctx: &Ctx) {
     let dims: Vec<usize> = if ctx.tier.thorough() { vec![1, 2, 3, 4, 5] } else { vec![1, 2] };
     let deltas = [0.6, 0.8, 0.9];
-    let seeds: Vec<u64> = if ctx.tier.thorough() { (0..8).collect() } else { vec![0, 1] };
-    let (warm, keep) = ctx.tier.pick((1000usize, 300usize), (1000, 500));
+    let seeds: Vec<u64> = if ctx.tier.thorough() { (0..8).collect() } else { vec![0] };
+    let (warm, keep) = ctx.tier.pick((1000usize, 200usize), (1000, 500));
     let mut jobs = vec![];
     for &d in &dims {
         for &delta in &deltas {
@@ -361,7 +378,7 @@ fn acceptance_grid(ctx: &Ctx) {
         let start: Vec<f64> = (0..d).map(|k| 0.2 * (k as f64 + 1.0)).collect();
         let case = json!({"part": "acceptance-band", "d": d, "delta": delta, "seed": seed});
         ctx.evals(1);
-        match observe::<f64, BF64>(target, &start, delta, seed, &[(keep, warm)], false) {
+        match observe::<f64, BF64>(target, &start, delta, seed, &[(keep, warm)], false, None, 1 << 13) {
             Err(m) => ctx.violation(Violation::new("C04:panic", m, case)),
             Ok(obs) => {
                 let post: Vec<f64> = obs[0].trans.iter().filter(|t| t.3[0] > warm as f64).map(|t| t.0 / t.1).collect();
@@ -413,7 +430,7 @@ pub fn check_case(ctx: &Ctx, case: &Value) {
             let tg = targets::<$T>();
             if let Some((target, start, tn)) = tg.iter().find(|t| t.2 == tname) {
                 let rt = gt_ref(target);
-                match observe::<$T, $B>(target.clone(), start, delta, seed, &runs, f32s) {
+                match observe::<$T, $B>(target.clone(), start, delta, seed, &runs, f32s, Some(&rt), 1 << 13) {
                     Err(m) => ctx.violation(Violation::new("C04:panic", m, case.clone())),
                     Ok(obs) => check_history(ctx, &rt, &obs, delta, f32s, case, tn, &worst),
                 }
